@@ -174,7 +174,7 @@ def constructions_of(F, adt_path):
     """[(body, Interp, construction)] for every struct expression that builds adt_path."""
     out = []
     short = strip_generics(adt_path)
-    for b in F.bodies.values():
+    for b in F.hir_bodies():
         if not b.hir or K.is_std_derive(b):
             continue
         if not any(x.get("k") == "Struct" and strip_generics(x["res"].get("def", "")) == short for x in hir_walk(b.hir["value"])):
